@@ -9,7 +9,6 @@ CLAUSES = {
     5: "lookup key not idempotent on a valid address",
     6: "a case / NFC / A-label / trailing-dot variant of a valid address has a different lookup key",
     7: "ToUnicode(ToASCII(a)) != a on a valid address",
-    102: "a domain label spelled with an upper-case ACE prefix (XN--...) is not decoded by dns.ForLookup (idna.ToUnicode matches the prefix case-sensitively), so that variant gets another key and ForLookup is not idempotent on it",
 }
 TRUSTED = [
     "Coq 8.16.1 kernel (coqc); vm_compute",
